@@ -190,6 +190,8 @@ def run(cx):
     cx.guard(_r10l, cx, repo)
     cx.rule("R10m", "a generator of output keeps no per-rendering scratch on an object that outlives the call")
     cx.guard(_r10m, cx, repo)
+    cx.rule("R10n", "nothing made with a palette received as a parameter is kept in state that outlives the call")
+    cx.guard(_r10n, cx, repo)
 
 
 # -------------------------------------------------------------------------------------------- R10c
@@ -945,3 +947,150 @@ def cache_fill_purity(cx, rule, repo):
                   f"{'' if culprit[0] == name else ', reached through the alias `' + name + '`'}): the cached text of another format of the same value now shows these chunks too",
                   stmt=f"{f.name}: {norm(m)[:60]}")
     cx.counts[f"{rule}:cache-filling functions examined"] = n_funcs
+
+
+# -------------------------------------------------------------------------------------------- R10n
+R10N_CONTROL = """
+class Printer:
+    def _mk_indent(self, cp: PPPalette, width):
+        chunk = self._indents.get(width)
+        if chunk is None:
+            chunk = self._indents[width] = cp.text(" " * width)
+        return chunk
+
+    def _count(self, cp: PPPalette, width):
+        self._n_calls += 1
+        self._widths[width] = width + 2
+        return cp.text(" " * width)
+"""
+
+
+def _r10n_scan(f, pal):
+    """[(node, target text, bad)] for the stores into state reaching self / cls / a module global inside `f`, a function that
+    receives a palette as a parameter; None when `f` receives no palette (or is a constructor)."""
+    pparams = set()
+    for a in f.args.posonlyargs + f.args.args + f.args.kwonlyargs:
+        ann = a.annotation
+        an = None
+        if isinstance(ann, ast.Name):
+            an = ann.id
+        elif isinstance(ann, ast.Attribute):
+            an = ann.attr
+        elif isinstance(ann, ast.Constant) and isinstance(ann.value, str):
+            an = ann.value.split(".")[-1]
+        if (an in pal or an == "PALETTE_CLASS" or a.arg in ("cp", "palette")) and a.arg not in ("self", "cls"):
+            pparams.add(a.arg)
+    if not pparams or f.name in ("__init__", "__new__", "__post_init__"):
+        # a constructor's `self` is the object allocated by this very call (a result object, R10f governs it)
+        return None
+    own = list(walk_local(f))
+    tainted = set(pparams)
+
+    def derived(e):
+        """value built with the palette"""
+        if isinstance(e, ast.Name):
+            return e.id in tainted and e.id not in pparams
+        if isinstance(e, ast.Call):
+            r = e.func
+            while isinstance(r, (ast.Attribute, ast.Call, ast.Subscript)):
+                r = r.func if isinstance(r, ast.Call) else r.value
+            if isinstance(r, ast.Name) and r.id in tainted and isinstance(e.func, (ast.Attribute, ast.Call)):
+                return True
+            return any(derived(a) for a in e.args) or any(derived(k.value) for k in e.keywords)
+        if isinstance(e, (ast.List, ast.Tuple, ast.Set)):
+            return any(derived(x) for x in e.elts)
+        if isinstance(e, ast.Dict):
+            return any(derived(x) for x in e.values if x is not None)
+        if isinstance(e, ast.BinOp):
+            return derived(e.left) or derived(e.right)
+        if isinstance(e, ast.IfExp):
+            return derived(e.body) or derived(e.orelse)
+        if isinstance(e, (ast.NamedExpr, ast.Starred, ast.Await)):
+            return derived(e.value)
+        if isinstance(e, (ast.ListComp, ast.SetComp, ast.GeneratorExp)):
+            return derived(e.elt)
+        if isinstance(e, ast.DictComp):
+            return derived(e.value)
+        return False
+    changed = True
+    while changed:
+        changed = False
+        for n in own:
+            tg = []
+            if isinstance(n, ast.Assign) and derived(n.value):
+                tg = n.targets
+            elif isinstance(n, (ast.NamedExpr, ast.AugAssign)) and derived(n.value):
+                tg = [n.target]
+            for t in tg:
+                if isinstance(t, ast.Name) and t.id not in tainted:
+                    tainted.add(t.id)
+                    changed = True
+    local_names = {n.id for n in own if isinstance(n, ast.Name) and isinstance(n.ctx, ast.Store)} | set(params(f))
+
+    def long_lived(t):
+        root, depth = t, 0
+        while isinstance(root, (ast.Attribute, ast.Subscript)):
+            root = root.value
+            depth += 1
+        if not isinstance(root, ast.Name) or depth == 0:
+            return False
+        return root.id in ("self", "cls") or root.id not in local_names
+    out = []
+    for n in own:
+        if isinstance(n, (ast.Assign, ast.AugAssign)):
+            for t in (n.targets if isinstance(n, ast.Assign) else [n.target]):
+                if isinstance(t, (ast.Attribute, ast.Subscript)) and long_lived(t):
+                    out.append((n, norm(t), derived(n.value) or (isinstance(n.value, ast.Name) and n.value.id in pparams)))
+        elif isinstance(n, ast.Call) and isinstance(n.func, ast.Attribute) and n.func.attr in ("append", "add", "extend", "insert", "setdefault", "update") \
+                and isinstance(n.func.value, (ast.Attribute, ast.Subscript)) and long_lived(n.func.value):
+            out.append((n, f"{norm(n.func.value)}.{n.func.attr}(..)", any(derived(a) or (isinstance(a, ast.Name) and a.id in pparams) for a in n.args)))
+    return out, pparams
+
+
+def _r10n(cx, repo):
+    """A function that RECEIVES its palette as a parameter is a per-call helper of a renderer: the palette (and with it the
+    colours configuration, or no_color) changes from call to call.  Anything such a helper makes with the palette - a chunk, a
+    formatter product - carries that palette's escape prefix.  If it is stored in state reachable from `self` / `cls` / a module
+    global (an attribute, or an element of a container held in an attribute), a later call with another palette gets the old
+    product back: no_color output with escapes, colours of configuration A under configuration B (s158: indentation chunks
+    memoised per palette *class*).  Rule: in the rendering modules, outside the Palette hierarchy, no value derived from a
+    palette parameter flows into a store on self / cls / a global.  Derivation: calls on the parameter (`cp.text(..)`,
+    `cp.get_color(..)(..)`), locals assigned from derived values, containers / calls with a derived argument."""
+    pal = _palette_classes(repo)
+    from sa.core import Module
+    ctl = Module.from_source("control/r10n.py", R10N_CONTROL) if hasattr(Module, "from_source") else None
+    ctl_tree = ctl.tree if ctl is not None else _with_parents(ast.parse(R10N_CONTROL))
+    got = []
+    for fn in [n for n in ast.walk(ctl_tree) if isinstance(n, ast.FunctionDef)]:
+        r = _r10n_scan(fn, pal | {"PPPalette"})
+        got.append(sorted(bad for _n, _t, bad in r[0]) if r else None)
+    cx.need(got == [[True], [False, False]], "R10n", "positive-control", f"the control snippet is not classified as expected: {got}")
+    n_funcs = n_sites = 0
+    for rel in ("ak/ppobj.py", "ak/color.py", "ak/ghist.py", "ak/hdoc.py"):
+        if rel not in repo.modules:
+            continue
+        for _m, q, f in repo.functions({rel}):
+            owner = enclosing(f, (ast.ClassDef,))
+            if owner is not None and (owner.name in pal or owner.name in ("ColorsConfig", "_PaletteMeta", "PaletteUser")):
+                continue
+            r = _r10n_scan(f, pal)
+            if r is None:
+                continue
+            n_funcs += 1
+            sites, pparams = r
+            for n, tgt, bad in sites:
+                n_sites += 1
+                cx.ob("R10n", n, not bad, semantic=True, detail=f"`{tgt}` receives nothing made with the per-call palette" if not bad else
+                      f"`{tgt}` keeps a value made with the palette parameter ({', '.join(sorted(pparams))}) of this call in state that outlives the call: "
+                      "a later rendering with another palette (no_color, another configuration) gets this palette's colours")
+    cx.count("R10n:functions receiving a palette", n_funcs)
+    cx.count("R10n:stores into long-lived state inside them", n_sites)
+    cx.at_least("R10n", "functions receiving a palette parameter", n_funcs, 5)
+    cx.ob("R10n", "ak/ppobj.py, ak/color.py, ak/ghist.py, ak/hdoc.py", True, f"{n_funcs} functions receiving a palette scanned, {n_sites} stores into long-lived state, control snippet classified", construct="rendering modules", stmt="scan")
+
+
+def _with_parents(tree):
+    for n in ast.walk(tree):
+        for c in ast.iter_child_nodes(n):
+            c._parent = n
+    return tree
